@@ -172,6 +172,9 @@ func assertEstablished(ta *ssa.TypeAssert) bool {
 	if assertGuarded(ta) {
 		return true
 	}
+	if atomicValueUniform(ta) {
+		return true
+	}
 	fn := ta.Parent()
 	var oks []ssa.Value
 	eachInstr(fn, func(_ *ssa.BasicBlock, _ int, ins ssa.Instruction) {
@@ -193,4 +196,74 @@ func assertEstablished(ta *ssa.TypeAssert) bool {
 	}}
 	hit, _ := q.fromEntry()
 	return hit == nil
+}
+
+// atomicValueUniform: x is `f.Load()` of a sync/atomic.Value held in a struct field, and every Store/Swap/
+// CompareAndSwap on that field anywhere in the package stores a value of exactly the asserted type (the idiom
+// atomic.Value is made for: the assertion recovers the one type that is ever stored).
+func atomicValueUniform(ta *ssa.TypeAssert) bool {
+	ld, ok := ta.X.(*ssa.Call)
+	if !ok || callName(ld) != "sync/atomic.Value.Load" || len(ld.Call.Args) == 0 {
+		return false
+	}
+	fa, ok := ld.Call.Args[0].(*ssa.FieldAddr)
+	if !ok {
+		return false
+	}
+	nt, fld, ok := fieldOf(fa)
+	if !ok || nt == nil || ta.Parent().Pkg == nil {
+		return false
+	}
+	stores, uniform := 0, true
+	var visit func(fn *ssa.Function)
+	visit = func(fn *ssa.Function) {
+		eachInstr(fn, func(_ *ssa.BasicBlock, _ int, ins ssa.Instruction) {
+			call, ok := ins.(ssa.CallInstruction)
+			if !ok {
+				return
+			}
+			var vals []ssa.Value
+			switch callName(call) {
+			case "sync/atomic.Value.Store", "sync/atomic.Value.Swap":
+				vals = call.Common().Args[1:2]
+			case "sync/atomic.Value.CompareAndSwap":
+				vals = call.Common().Args[2:3]
+			default:
+				return
+			}
+			rfa, ok := call.Common().Args[0].(*ssa.FieldAddr)
+			if !ok {
+				return
+			}
+			if n2, f2, ok := fieldOf(rfa); !ok || n2 == nil || n2.Obj() != nt.Obj() || f2 != fld {
+				return
+			}
+			stores++
+			for _, v := range vals {
+				mi, ok := v.(*ssa.MakeInterface)
+				if !ok || !types.Identical(mi.X.Type(), ta.AssertedType) {
+					uniform = false
+				}
+			}
+		})
+		for _, an := range fn.AnonFuncs {
+			visit(an)
+		}
+	}
+	for _, m := range ta.Parent().Pkg.Members {
+		switch x := m.(type) {
+		case *ssa.Function:
+			visit(x)
+		case *ssa.Type:
+			for _, t := range []types.Type{x.Type(), types.NewPointer(x.Type())} {
+				ms := ta.Parent().Prog.MethodSets.MethodSet(t)
+				for i := 0; i < ms.Len(); i++ {
+					if f := ta.Parent().Prog.MethodValue(ms.At(i)); f != nil && f.Pkg == ta.Parent().Pkg {
+						visit(f)
+					}
+				}
+			}
+		}
+	}
+	return stores > 0 && uniform
 }
